@@ -12,7 +12,7 @@ import (
 // table facade scripts
 
 type TOp struct {
-	Op   string `json:"op"` // insert | delete | lookupboth | lookupdown | popdown | popmatching | deletebypeer
+	Op   string `json:"op"` // insert | delete | lookupboth | lookupdownfrom | popdown | popmatching | deletebypeer
 	E    Entry  `json:"e,omitempty"`
 	ID   uint64 `json:"id,omitempty"`
 	Peer int    `json:"peer,omitempty"`
@@ -46,10 +46,10 @@ func RunTable(ops []TOp) []TRes {
 			}
 			t.Delete(hs[len(hs)-1])
 		case "lookupboth":
-			u, d := t.LookupBoth(o.ID)
+			u, d := t.LookupBoth(o.ID, PID(o.Peer))
 			r.E1, r.E2 = FromVerifEntry(u), FromVerifEntry(d)
-		case "lookupdown":
-			r.E1 = FromVerifEntry(t.LookupDownstream(o.ID))
+		case "lookupdownfrom":
+			r.E1 = FromVerifEntry(t.LookupDownstreamFrom(o.ID, PID(o.Peer)))
 		case "popdown":
 			r.E1 = FromVerifEntry(t.PopDownstreamFromPeer(o.ID, PID(o.Peer)))
 		case "popmatching":
@@ -71,9 +71,9 @@ func CoqTOp(o TOp) string {
 	case "delete":
 		return "TDelete " + CoqEntry(o.E)
 	case "lookupboth":
-		return "TLookupBoth " + vh.CoqN(o.ID)
-	case "lookupdown":
-		return "TLookupDown " + vh.CoqN(o.ID)
+		return fmt.Sprintf("TLookupBoth %s %s", vh.CoqN(o.ID), vh.CoqN(uint64(o.Peer)))
+	case "lookupdownfrom":
+		return fmt.Sprintf("TLookupDownFrom %s %s", vh.CoqN(o.ID), vh.CoqN(uint64(o.Peer)))
 	case "popdown":
 		return fmt.Sprintf("TPopDown %s %s", vh.CoqN(o.ID), vh.CoqN(uint64(o.Peer)))
 	case "popmatching":
@@ -249,9 +249,9 @@ func GenTable(r *vh.Rand, n int) []TOp {
 		case k == 4:
 			ops = append(ops, TOp{Op: "delete", E: inserted[r.Intn(len(inserted))]})
 		case k == 5 || k == 6:
-			ops = append(ops, TOp{Op: "lookupboth", ID: id()})
+			ops = append(ops, TOp{Op: "lookupboth", ID: id(), Peer: pr()})
 		case k == 7:
-			ops = append(ops, TOp{Op: "lookupdown", ID: id()})
+			ops = append(ops, TOp{Op: "lookupdownfrom", ID: id(), Peer: pr()})
 		case k == 8:
 			ops = append(ops, TOp{Op: "popdown", ID: id(), Peer: pr()})
 		case k == 9 || k == 10:
